@@ -21,11 +21,20 @@ and try_push, and in try_push the copy is dominated by the cursor+len <= availab
 `available` on both paths;
 (e) clear_rrs resets exactly the fields the add_* operations may have changed (not qname, rr_start, limits, EDNS/TSIG
 state) and recomputes ARCOUNT from the reservations.
+(b') the Writer invariant 12 <= rr_start <= cursor <= available <= limit <= len(octets) holds after every store (E5), and the
+raw writers' preconditions (position + len <= len(octets)) are proved at every call site: no operation writes outside
+the buffer or beyond the limit.
 Not decided: decoded-equals-given for arbitrary operation sequences; "fits uncompressed => never truncates".
 """
 ASSUMPTIONS = ['trait-object and generic calls fan out to every implementation in the crate', 'every CFG path is assumed feasible']
 
 def check(R, F):
+    from rules import e5, writer_inv
+    _S = e5.make_summary(F)
+    writer_inv.check(R, F, _S)
+    e5.check_pres(R, F, _S, 'writer-invariant.pre', only=("message::writer::Writer::<'a>::write", "message::writer::Writer::<'a>::write_u16"))
+    R.floor('writer-invariant.pre', 5)
+
     # ---- (a)
     restored = wc.check_rollback_completeness(R, F, 'rollback')
 
